@@ -81,6 +81,22 @@ class UserSet(A.Set):
         return f'UserSet({self._xs})'
 
 
+class FalsyDict(dict):
+    """containers whose truth value does not follow their length (flag dicts, result tuples …)"""
+    def __bool__(self):
+        return False
+
+
+class FalsyList(list):
+    def __bool__(self):
+        return False
+
+
+class FalsyTuple(tuple):
+    def __bool__(self):
+        return False
+
+
 class OneShot:
     """An Iterable that is not a Collection: iterating consumes it."""
     def __init__(self, xs):
@@ -454,6 +470,13 @@ class ObjGen:
     def mutate(self, x, depth=0):
         """Replace one position (item / key / value / the object itself / a length) by something else."""
         r = self.rng
+        if r.random() < 0.06:      # same content, truth value decoupled from the length
+            if type(x) is dict and x:
+                return FalsyDict(x)
+            if type(x) is list and x:
+                return FalsyList(x)
+            if type(x) is tuple:
+                return FalsyTuple(x + (0,) if r.random() < 0.5 else x)
         wrong = lambda: r.choice([0, 'a', None, [1], U2(), 2.5, (1, 'a'), {1: 'b'}, True, 'ab', -1])
         if depth > 4 or r.random() < 0.25:
             return wrong()
